@@ -7,17 +7,25 @@
   contents), over a world of named containers with a log of every identity ever constructed / finalised.
   Source-derived facts: CelloGen/Own.lean (which functions of the container sources call destruct / assign / memcpy).
 
-  The property as stated is false on this tree in two places (known findings; the model mirrors them):
-    * Box_Assign copies the pointer (F28): containers of Box are copied shallowly, `set` drops the old pointee;
-    * List_Resize(n > len) links zero-filled, never constructed elements.
+  The property as stated is false on this tree in three places (known findings; the model mirrors them):
+    * Box_Assign / Box_Ref copy the pointer (F28): containers of Box are copied shallowly, `set` and `ref` drop the old pointee;
+    * List_Resize(n > len) links zero-filled, never constructed elements;
+    * Array_Assign from a source whose `get(obj, $I(i))` raises (a Table / Tree) leaves `len` counting records that were
+      never constructed.
   (A third defect found by this engine — a List_Push_At that raised had already constructed the element and leaked
   it — was repaired in /repo by 4077d96; `C05_list_pushat_old_order_refuted` keeps the witness against the old order.)
-  `inContract` excludes exactly these; the theorems named `…_partial` are proved for every history of in-contract
-  operations, the full statements are kept as `…_statement` and refuted (`…_refuted`) on concrete witnesses.
+  `inContract` excludes exactly these, the assignments that are refused after the destination was cleared, and the
+  operations the op-file interpreters do not execute at all (`bad`); the theorems named `…_partial` are proved for every
+  history of in-contract operations, the full statements are kept as `…_statement` and refuted (`…_refuted`) on concrete
+  witnesses.  The second sentence of the property — internal moves neither duplicate nor drop an element — is the section
+  "Internal moves" (`C05_moves_*`): composition with the structural models of Table (C02) and Tree (C03).
 -/
 import CelloProofs.Lemmas.OwnRefused
 import CelloProofs.Lemmas.OwnProfile
+import CelloProofs.Lemmas.OwnCompose
+import CelloProofs.Lemmas.TableIdeal
 import CelloGen.Own
+import CelloGen.Table
 
 namespace Cello.Own
 open List
@@ -59,7 +67,10 @@ theorem C05_conservation_list (next : Nat) (xs : List Tok) (i : Int) (p n : Nat)
   ⟨cons_listPushAt _ _ _ _, cons_listResize _ _⟩
 
 /-- **Table.c / Tree.c**: set (new key, existing key: replace resp. in place), rem, clear/resize, constructor runs,
-    assign/copy — for every map, key, value and source; the identities handed out are fresh. -/
+    assign/copy — for every map, key, value and source; the identities handed out are fresh.  This is conservation of the
+    ownership *protocol* on the association list; that the association list is what the slot array / the red-black tree
+    holds after the same operation, whatever rehash, displacement, rotation or predecessor copy it involved, is
+    `C05_moves_table` / `C05_moves_tree` below. -/
 theorem C05_conservation_map (mk : MapKind) (next : Nat) (kvs src : List KV) (k v n : Nat) (ps : List (Nat × Nat))
     (hnext : 0 < next) (hraw : 0 ∉ ids (kvToks kvs)) :
     (let r := mapSet mk next kvs k v; Conserves (kvToks kvs) (kvToks r.val) r.issued r.retired ∧ FreshFrom next r.issued) ∧
@@ -80,7 +91,7 @@ theorem C05_conservation_partial {w : World} (hinv : Inv w) (op : Op) (hin : inC
     FreshFrom w.next o.issued ∧
     w'.issuedLog = ids o.issued ++ w.issuedLog ∧ w'.retiredLog = ids o.retired ++ w.retiredLog ∧
     Inv w' := by
-  have h := step_ok hinv op hin
+  have h := step_ok hinv op (inContract_nkf hin)
   exact ⟨h.cons, h.fresh, h.issued, h.retired, h.inv⟩
 
 /-- the full statement: conservation for *every* operation -/
@@ -88,11 +99,147 @@ def C05_conservation_statement : Prop :=
   ∀ (w : World) (op : Op), Inv w →
     allIds (step w op).1.objs ++ ids (step w op).2.retired ~ allIds w.objs ++ ids (step w op).2.issued
 
+/-! ## Internal moves neither duplicate nor drop an element
+
+The association lists of Cello/Own.lean have no slots, no swap spaces, no rehash, no rotations, no predecessor copy.  The
+theorems of this section tie them to the *structural* models of the two map containers — the robin-hood slot array of
+Cello/Table.lean (property C02) and the red-black tree with parent-chain repairs and the word-level predecessor `memcpy`
+of Cello/RBTree.lean (property C03), both validated slot by slot / node by node against the C code by their own engines —
+instantiated with token-valued records (Cello/OwnConc.lean).  `tableSet / treeSet / mapRem / mapResize / mapSetMany /
+mapAssign` stop being definitions of what a move does and become consequences of the representation invariants. -/
+
+open Conc in
+/-- the parameters of src/Table.c as they are now (regenerated by the translator on every run) -/
+def tableCfgNow : Cello.Table.Cfg :=
+  { ge := CelloGen.Table.tieGe, growEmpty := CelloGen.Table.setGrowsEmpty,
+    ideal := Cello.Table.idealSize CelloGen.Table.primes CelloGen.Table.loadNum CelloGen.Table.loadDen }
+
+/-- …satisfy what the composition needs: strict displacement test, an emptied table grows before the first `set`,
+    `Table_Ideal_Size n > n`, `Table_Assign` guards `self is obj`.  Stops checking when src/Table.c changes one of them. -/
+theorem C05_table_source_good : Cello.Table.GoodCfg tableCfgNow :=
+  ⟨rfl, rfl, fun n => Cello.Table.idealSize_gt _ _ _ (by decide) (by decide) (by decide) n, rfl⟩
+
+open Conc in
+/-- **C05_moves (Table).**  For every hash function, every slot array `t` that satisfies the robin-hood representation
+    invariant for the pairs `kvs` (`AbsT`: stored home = hash % nslots, distinct keys, probe-distance order, `nitems` =
+    occupied slots, an empty slot, the stored records are exactly `kvs`), every key, value and size:
+    `Table_Set` (first growth of an emptied table, probing, displacement of residents through the two swap spaces or
+    replacement of the resident with an equal key, `Table_Rehash` into the next prime), `Table_Rem` (backward shift,
+    `Table_Rehash` into a smaller array) and `Table_Resize` (`Table_Clear` / refusal / `Table_Rehash`) on the slot-array
+    model succeed (no division by zero, no endless probing), construct and finalise exactly the tokens the ownership
+    model says (`ResRel`), leave a slot array that again satisfies the invariant for the ownership model's result, and
+    **conserve the stored tokens**: `tokens in the slots afterwards ++ finalised ~ tokens in the slots before ++
+    constructed`.  So no move of a record — rehash, displacement, back-shift — drops or duplicates an element. -/
+theorem C05_moves_table (hash : Nat → Nat) {t : CTab} {kvs : List KV} (R : AbsT hash t kvs) (next k v n : Nat) :
+    (∃ r, tableSetC tableCfgNow hash next t k v = .ok r ∧ ResRel (AbsT hash) r (tableSet next kvs k v) ∧
+      Conserves (tabToks t) (tabToks r.val) r.issued r.retired ∧ FreshFrom next r.issued) ∧
+    (∃ r, tableRemC tableCfgNow hash t k = .ok r ∧ ResRel (AbsT hash) r (mapRem kvs k) ∧
+      Conserves (tabToks t) (tabToks r.val) r.issued r.retired ∧ r.issued = []) ∧
+    (∃ r, tableResizeC tableCfgNow hash t n = .ok r ∧ ResRel (AbsT hash) r (mapResize .table kvs n) ∧
+      Conserves (tabToks t) (tabToks r.val) r.issued r.retired ∧ r.issued = []) := by
+  have g := C05_table_source_good
+  have lift := fun {r a} (h : ResRel (AbsT hash) r a) hc =>
+    conserves_lift (toks := tabToks) (fun _ _ h => tabToks_perm h) R h hc
+  refine ⟨?_, ?_, ?_⟩
+  · obtain ⟨r, e, h⟩ := tableSetC_refines g R next k v
+    have hc := cons_tableSet next kvs k v
+    exact ⟨r, e, h, lift h hc.1, by rw [h.2.1]; exact hc.2⟩
+  · obtain ⟨r, e, h⟩ := tableRemC_refines g R k
+    have hc := cons_mapRem kvs k
+    exact ⟨r, e, h, lift h hc.1, by rw [h.2.1]; exact hc.2⟩
+  · obtain ⟨r, e, h⟩ := tableResizeC_refines g R n
+    have hc := cons_mapResize .table kvs n
+    exact ⟨r, e, h, lift h hc.1, by rw [h.2.1]; exact hc.2⟩
+
+open Conc in
+/-- **C05_moves (Table): the pure moves by themselves.**  `Table_Rehash` into any array with room re-inserts every record:
+    the fresh array holds exactly the same pairs of tokens; and `Table_Set_Move` of a record with a new key, carried
+    past the residents it displaces, leaves the old records and the new one. -/
+theorem C05_moves_table_rehash_displace (hash : Nat → Nat) {t : CTab} {m : Cello.Table.Spec Nat KV}
+    (R : Cello.Table.Rep0 hash t m) :
+    (∀ newSize, t.nitems < newSize →
+      ∃ t', Cello.Table.rehash tableCfgNow hash t newSize = .ok t' ∧ t'.n = newSize ∧ slotKVs t' ~ slotKVs t) ∧
+    (∀ k kv, t.nitems < t.n → (∀ v, (k, v) ∉ m) →
+      ∃ t', Cello.Table.setMove tableCfgNow hash t k kv = .ok t' ∧ slotKVs t' ~ kv :: slotKVs t) :=
+  ⟨fun newSize h => rehash_moves R newSize h, fun k kv hroom hfresh => setMove_moves rfl R hroom k kv hfresh⟩
+
+open Conc in
+/-- **C05_moves (Tree).**  For every valid red-black tree `m` over probe elements (black root, no red node with a red
+    child, equal black heights, strictly descending keys, `nitems` = number of nodes) that holds the pairs `kvs`, every
+    key, value and size: `Tree_Set` (descent; in-place assignment onto the node with an equal key, or a fresh node and
+    `Tree_Set_Fix`: recolouring and rotations along the parent chain), `Tree_Rem` (the predecessor's block copied into a
+    node with two children, the spliced-out node unlinked, `Tree_Rem_Fix`: sibling rotations and recolourings) and
+    `Tree_Resize` on the red-black model never dereference NULL, construct / assign in place / finalise exactly the tokens
+    the ownership model says, leave a valid tree that holds the ownership model's result, and conserve the stored
+    tokens.  So no rotation and no predecessor copy drops or duplicates an element. -/
+theorem C05_moves_tree {m : CTree} {kvs : List KV} (R : AbsR m kvs) (hraw : 0 ∉ ids (kvToks kvs)) (next k v n : Nat) :
+    (∃ r, treeSetC next m k v = some r ∧ ResRel AbsR r (treeSet next kvs k v) ∧
+      Conserves (treeToks m) (treeToks r.val) r.issued r.retired ∧ FreshFrom next r.issued) ∧
+    (∃ r, treeRemC m k = some r ∧ ResRel AbsR r (mapRem kvs k) ∧
+      Conserves (treeToks m) (treeToks r.val) r.issued r.retired ∧ r.issued = []) ∧
+    (ResRel AbsR (treeResizeC m n) (mapResize .tree kvs n) ∧
+      Conserves (treeToks m) (treeToks (treeResizeC m n).val) (treeResizeC m n).issued (treeResizeC m n).retired) := by
+  have lift := fun {r a} (h : ResRel AbsR r a) hc =>
+    conserves_lift (toks := treeToks) (fun _ _ h => treeToks_perm h) R h hc
+  refine ⟨?_, ?_, ?_⟩
+  · obtain ⟨r, e, h⟩ := treeSetC_refines R next k v
+    have hc := cons_treeSet next kvs k v hraw
+    exact ⟨r, e, h, lift h hc.1, by rw [h.2.1]; exact hc.2⟩
+  · obtain ⟨r, e, h⟩ := treeRemC_refines R k
+    have hc := cons_mapRem kvs k
+    exact ⟨r, e, h, lift h hc.1, by rw [h.2.1]; exact hc.2⟩
+  · have h := treeResizeC_refines R n
+    exact ⟨h, lift h (cons_mapResize .tree kvs n).1⟩
+
+open Conc in
+/-- **C05_moves (Tree): the pure moves by themselves.**  `Tree_Set_Fix` returns a tree with the in-order sequence of the
+    tree it was given; `Tree_Rem_Fix` returns a parent chain that surrounds any subtree with the same pairs; and the block
+    `header | key | header | value` that `Tree_Rem` copies from the predecessor decodes, at the node's key / value
+    offsets, to exactly the predecessor's two elements — payload and identity — whatever the header width. -/
+theorem C05_moves_tree_rotate_copy :
+    (∀ (t t' : Cello.RB.T Tok Tok) (p : Cello.RB.Path Tok Tok), Cello.RB.setFix t p = some t' →
+      Cello.RB.toList t' = Cello.RB.toList (Cello.RB.plug t p)) ∧
+    (∀ (p p' : Cello.RB.Path Tok Tok) (t : Cello.RB.T Tok Tok), Cello.RB.remFix p = some p' →
+      Cello.RB.toList (Cello.RB.plug t p') = Cello.RB.toList (Cello.RB.plug t p)) ∧
+    (∀ (hdr : Nat) (dst src : KV), Cello.RB.relocate (⟨hdr, 2, 2⟩ : Cello.RB.Lay) dst src = some src) :=
+  ⟨fun t t' p h => setFix_moves t p t' h, fun p p' t h => remFix_moves p p' h t, relocate_moves⟩
+
+open Conc in
+/-- **C05_moves: histories.**  Every history of `set / rem / resize / assign-from-another-map` on one Table, from
+    `new(Table, K, V)` on (or from any slot array satisfying the invariant), and on one Tree, from the empty tree on (or
+    from any valid tree): the structural model never fails and, step by step, issues / finalises / assigns in place
+    exactly what the ownership model of Cello/Own.lean does, and holds exactly its contents (`Forall₂ ResRel`).  This is
+    what licenses `C05_history_partial` — stated over the association lists — for the real layouts. -/
+theorem C05_moves_histories (hash : Nat → Nat) (ops : List MOp) (next : Nat) :
+    (∀ (t : CTab) (kvs : List KV), AbsT hash t kvs →
+      ∃ rs, tableRunC tableCfgNow hash next t ops = .ok rs ∧
+        List.Forall₂ (ResRel (AbsT hash)) rs (absRun .table next kvs ops)) ∧
+    (∀ (m : CTree) (kvs : List KV), AbsR m kvs →
+      ∃ rs, treeRunC next m ops = some rs ∧ List.Forall₂ (ResRel AbsR) rs (absRun .tree next kvs ops)) ∧
+    AbsT hash (Cello.Table.new tableCfgNow) [] ∧ AbsR treeEmpty [] :=
+  ⟨fun t kvs R => tableRunC_refines C05_table_source_good ops next t kvs R,
+   fun m kvs R => treeRunC_refines ops next m kvs R,
+   Cello.Table.new_rep _ C05_table_source_good hash, absR_empty⟩
+
+open Conc in
+/-- **C05_moves: constructors and assignment.**  `new(Table/Tree, K, V, k1, v1, …)` with any initial pairs (repeated keys
+    included: the insertion loop of `Table_New` takes the replace branch, `Tree_Set` assigns in place) on the structural
+    models = `mapSetMany` of the ownership model. -/
+theorem C05_moves_constructors (hash : Nat → Nat) (next : Nat) (ps : List (Nat × Nat)) :
+    (∃ r, tableNewC tableCfgNow hash next ps = .ok r ∧ ResRel (AbsT hash) r (mapSetMany .table next [] ps)) ∧
+    (∃ r, treeFillC next treeEmpty ps = some r ∧ ResRel AbsR r (mapSetMany .tree next [] ps)) :=
+  ⟨tableNewC_refines C05_table_source_good next ps, treeFillC_refines ps next treeEmpty [] absR_empty⟩
+
+
 /-! ## Histories -/
 
 /-- **C05_history.** For every history of in-contract operations over any number of containers of all kinds
-    (mutations, constructors, copies, assignments between containers of the same family, clears, deletions, failing
-    calls), in the world `w` it leads to — and hence at every step, a prefix of such a history being one —
+    (mutations, constructors, copies, assignments between containers of the same family and from an empty container of
+    the other family, clears, deletions, failing calls), in the world `w` it leads to **after every operation** — a
+    prefix of such a history being one (`C05_history_prefix`); nothing is stated about the states *inside* one
+    operation —
+      * every operation was executed (none was skipped as ill-formed: a history containing an operation the
+        interpreters refuse is not in contract),
       * the elements ever constructed are exactly the finalised ones plus the ones held by the containers
         (live multiset = ⊎ of the container contents),
       * no identity was constructed twice, finalised twice, or is held in two places,
@@ -104,31 +251,34 @@ theorem C05_history_partial (ops : List Op) (h : allInContract {} ops) :
     (w.issuedLog ~ w.retiredLog ++ allIds w.objs) ∧
     w.issuedLog.Nodup ∧ w.retiredLog.Nodup ∧ (allIds w.objs).Nodup ∧
     (∀ i ∈ w.retiredLog, i ∉ allIds w.objs) ∧ (∀ i ∈ w.retiredLog, i ∈ w.issuedLog) ∧
+    (∀ o ∈ (run {} ops).2, o.bad = false) ∧ allInContract w (delAllOps w) ∧
     (let e := (run w (delAllOps w)).1
      e.objs = [] ∧ e.retiredLog ~ e.issuedLog ∧ e.retiredLog.Nodup ∧ ∀ i ∈ w.issuedLog, i ∈ e.retiredLog) := by
   intro w
-  have hinv : Inv w := run_inv inv_init ops h
+  have hinv : Inv w := run_inv inv_init ops h.nkf
   refine ⟨hinv.cons, hinv.nodup, inv_retired_nodup hinv, inv_contents_nodup hinv, inv_disjoint hinv,
-    fun i hi => hinv.cons.mem_iff.mpr (List.mem_append_left _ hi), ?_⟩
+    fun i hi => hinv.cons.mem_iff.mpr (List.mem_append_left _ hi), allInContract_noBad h, delAll_inContract w, ?_⟩
   obtain ⟨hinv', hempty⟩ := run_delAll w hinv
   have hc := hinv'.cons
   rw [hempty] at hc
   simp only [allIds, allToks_nil, ids_nil, List.append_nil] at hc
   refine ⟨hempty, hc.symm, inv_retired_nodup hinv', fun i hi => ?_⟩
-  exact hc.mem_iff.mp (run_issued_mono hinv _ (delAll_inContract _ _) i hi)
+  exact hc.mem_iff.mp (run_issued_mono hinv _ (delAll_nkf _ _) i hi)
 
 /-- a prefix of an in-contract history is an in-contract history (so `C05_history_partial` speaks about every step) -/
 theorem C05_history_prefix (ops : List Op) (n : Nat) (h : allInContract {} ops) : allInContract {} (ops.take n) := by
   have := (allInContract_append (w := {}) (ops := ops.take n) (ops' := ops.drop n)).mp (by simpa using h)
   exact this.1
 
-/-- number of live elements = sum of the container sizes (a map entry is two elements: key and value) -/
+/-- number of live elements = sum of the container sizes, after every operation of an in-contract history
+    (`toks.length` of a sequence is its `len`, of a map twice its `len` — an entry is two elements, key and value —, of a
+    Box one: by definition of `Cont.toks` / `Cont.len`).  `liveCount` is a truncated subtraction: the equation is derived
+    from the multiset equation `Inv.cons`, not from the subtraction. -/
 theorem C05_live_count_partial (ops : List Op) (h : allInContract {} ops) :
     let w := (run {} ops).1
-    liveCount w = (w.objs.map (fun cx => cx.2.toks.length)).sum ∧
-    (∀ c x, lookup w.objs c = some x → x.toks.length = (match x with | .map _ _ => 2 * x.len | _ => x.len)) := by
+    liveCount w = (w.objs.map (fun cx => cx.2.toks.length)).sum ∧ w.retiredLog.length ≤ w.issuedLog.length := by
   intro w
-  have hinv : Inv w := run_inv inv_init ops h
+  have hinv : Inv w := run_inv inv_init ops h.nkf
   constructor
   · have hl := hinv.cons.length_eq
     simp only [List.length_append] at hl
@@ -139,11 +289,9 @@ theorem C05_live_count_partial (ops : List Op) (h : allInContract {} ops) :
       | nil => rfl
       | cons cx rest ih => simp [ih]
     simp only [liveCount]; omega
-  · intro c x _
-    cases x with
-    | seq k ek xs => rfl
-    | map k kvs => simp [Cont.toks, Cont.len]
-    | cell t => rfl
+  · have hl := hinv.cons.length_eq
+    simp only [List.length_append] at hl
+    omega
 
 /-- the full statement of the history theorem: the same for *every* history -/
 def C05_history_statement : Prop :=
@@ -163,21 +311,27 @@ theorem C05_never_while_contained_partial {w : World} (hinv : Inv w) (op : Op) (
       t.id ∉ allIds (step w op).1.objs ∧ t.id ∉ allIds (run (step w op).1 later).1.objs ∧
       (t.id ∈ allIds w.objs ∨ t.id ∈ ids (step w op).2.issued) := by
   intro t ht
-  have hs := step_ok hinv op hin
+  have hs := step_ok hinv op (inContract_nkf hin)
   have hid : t.id ∈ ids (step w op).2.retired := List.mem_map_of_mem ht
   have hlog : t.id ∈ (step w op).1.retiredLog := by rw [hs.retired]; exact List.mem_append_left _ hid
   refine ⟨inv_disjoint hs.inv _ hlog, ?_, ?_⟩
-  · exact inv_disjoint (run_inv hs.inv later hlater) _ (run_retired_mono hs.inv later hlater _ hlog)
+  · exact inv_disjoint (run_inv hs.inv later hlater.nkf) _ (run_retired_mono hs.inv later hlater.nkf _ hlog)
   · exact List.mem_append.mp (hs.cons.mem_iff.mp (List.mem_append_right _ hid))
 
-/-- A refused in-contract operation (empty pop, bad index, absent element or key, refused resize) constructs
-    nothing, finalises nothing, assigns nothing and leaves every container as it was: no element changes hands on an
-    error path.  (The one error path that did — List_Push_At — was repaired by 4077d96, see
-    `C05_list_pushat_old_order_refuted`.) -/
+/-- A refused in-contract operation (empty pop, bad index, absent element or key, refused resize) assigns nothing and
+    leaves every container as it was, and
+      * on a container of probe elements it constructs nothing and finalises nothing;
+      * on a container of Box (a refused `push_at`) the only element constructed is the pointee made for the call, and
+        nothing but that pointee is finalised (the caller deletes it): no *stored* element changes hands on an error path.
+    (The one error path that did — List_Push_At — was repaired by 4077d96, see `C05_list_pushat_old_order_refuted`.) -/
 theorem C05_refused_no_effect_partial {w : World} (op : Op) (hin : inContract w op = true)
     (hr : (step w op).2.out ≠ .ok) :
-    (step w op).2.issued = [] ∧ (step w op).2.retired = [] ∧ (step w op).2.updated = [] ∧
-    ∀ e, lookup (step w op).1.objs e = lookup w.objs e := step_refused op hin hr
+    (step w op).2.updated = [] ∧ (∀ e, lookup (step w op).1.objs e = lookup w.objs e) ∧
+    (((step w op).2.issued = [] ∧ (step w op).2.retired = []) ∨
+     (srcIsBox w op.target = true ∧ ∃ t, (step w op).2.issued = [t] ∧ ∀ u ∈ (step w op).2.retired, u = t)) := by
+  rcases step_refused op (inContract_nkf hin) hr with ⟨h1, h2, h3, h4⟩ | ⟨hb, ht, hu, hf⟩
+  · exact ⟨h3, h4, Or.inl ⟨h1, h2⟩⟩
+  · exact ⟨hu, hf, Or.inr ⟨hb, ht⟩⟩
 
 /-- the full statement, for every operation -/
 def C05_never_while_contained_statement : Prop :=
@@ -197,7 +351,7 @@ theorem C05_deep_partial {w : World} (hinv : Inv w) {c d : Nat} {x : Cont}
       (∀ i ∈ ids y.toks, i ∉ ids x.toks) := by
   intro w' o
   have hcd : d ≠ c := by intro h; rw [h, hfree] at hd; cases hd
-  have hin : inContract w (.copy c d) = true := by simp [inContract, srcIsBox, hd, hbox]
+  have hin : noKnownFinding w (.copy c d) = true := by simp [noKnownFinding, srcIsBox, hd, hbox]
   have hs := step_ok hinv (.copy c d) hin
   have hframe : lookup w'.objs d = some x := by rw [← hd]; exact step_frame w (.copy c d) hcd
   have hguard : ¬ (c ≥ maxConts ∨ (lookup w.objs c).isSome = true) := by simp [hfree]; exact hc
@@ -259,7 +413,9 @@ theorem C05_deep_assign_partial {w : World} (hinv : Inv w) {c d : Nat} {x y : Co
       FreshFrom w.next o.issued ∧ o.retired = y.toks ∧ lookup w'.objs d = some x ∧
       (∀ i ∈ ids z.toks, i ∉ ids x.toks) := by
   intro w' o
-  have hin : inContract w (.assign c d) = true := by simp [inContract, srcIsBox, hd, hbx]
+  have hin : noKnownFinding w (.assign c d) = true := by
+    rcases hfam with ⟨k, ek, xs, k', ek', src, rfl, rfl⟩ | ⟨k, kvs, k', src, rfl, rfl⟩ <;>
+      simp [noKnownFinding, srcIsBox, crossRefused, hc, hd, hbx, hcd]
   have hs := step_ok hinv (.assign c d) hin
   have hframe : lookup w'.objs d = some x := by rw [← hd]; exact step_frame w (.assign c d) (Ne.symm hcd)
   have hdisj : ∀ z : Cont, z.toks ~ o.issued → ∀ i ∈ ids z.toks, i ∉ ids x.toks := by
@@ -308,8 +464,10 @@ theorem C05_deep_assign_partial {w : World} (hinv : Inv w) {c d : Nat} {x y : Co
     simp [List.flatMap_map, List.map_flatMap]
 
 /-- **C05_deep (independence).** Whatever is done to other containers — in contract or not — a container that no
-    operation of the history is applied to is the same value afterwards; in particular mutating or deleting a copy
-    never changes the original and vice versa. -/
+    operation of the history is applied to is the same value afterwards.  (This is the frame property of the model, in
+    which containers are separate values; that the *code* has it — no operation reaches into another container's
+    storage — is what the per-operation comparison of all container contents (`dig`) checks, and what F28 violates for
+    Box.  The content of "deep" is the freshness conjunct of `C05_deep_partial` / `C05_deep_assign_partial`.) -/
 theorem C05_deep_independent (w : World) (ops : List Op) (d : Nat) (h : ∀ op ∈ ops, op.target ≠ d) :
     lookup (run w ops).1.objs d = lookup w.objs d := run_frame w ops d h
 
@@ -318,7 +476,7 @@ theorem C05_deep_no_foreign_finalise {w : World} (hinv : Inv w) (op : Op) (hin :
     {e : Nat} {x : Cont} (he : e ≠ op.target) (hl : lookup w.objs e = some x) :
     ∀ t ∈ (step w op).2.retired, t.id ∉ ids x.toks := by
   intro t ht hx
-  have hs := step_ok hinv op hin
+  have hs := step_ok hinv op (inContract_nkf hin)
   have hl' : lookup (step w op).1.objs e = some x := by rw [← hl]; exact step_frame w op he
   have h1 : t.id ∈ allIds (step w op).1.objs := ids_sub_allIds hl' _ hx
   have h2 : t.id ∈ (step w op).1.retiredLog := by
@@ -396,24 +554,91 @@ theorem C05_box_set_refuted :
     let w := (run {} kfBoxSet).1
     liveCount w = 2 ∧ (allIds w.objs).length = 1 ∧ w.retiredLog = [] := by decide
 
+/-- Array ← non-empty Table: `Array_Assign` clears, sets `nitems = len(obj) = 2`, allocates, zero-fills record 0 and
+    `get(obj, $I(0))` raises -/
+def kfArrayAssign : List Op := [.newSeq 0 .array [1], .newMap 1 .table [(0, 10), (7, 20)], .assign 0 1]
+/-- `ref(box, p)` on a Box that owns an object -/
+def kfBoxRef : List Op := [.box 0 1, .bref 0 2]
+/-- List ← non-empty Table: `List_Assign` clears, then `get(obj, $I(0))` raises -/
+def xfListAssign : List Op := [.newSeq 0 .list [1], .newMap 1 .table [(0, 10)], .assign 0 1]
+
+/-- Array_Assign from a source whose `get(obj, $I(i))` raises: the call fails with `len(a) = 2` although no element of
+    `a` exists — 4 live elements (the Table's), container sizes summing to 6 -/
+theorem C05_live_count_array_assign_refuted :
+    let w := (run {} kfArrayAssign).1
+    (run {} kfArrayAssign).2.map (·.out) = [.ok, .ok, .raised .valueError] ∧
+    liveCount w = 4 ∧ (w.objs.map (fun cx => cx.2.toks.length)).sum = 6 := by decide
+
+/-- `Box_Ref` overwrites the pointer: the object the Box owned stays live and is owned by nothing -/
+theorem C05_box_ref_refuted :
+    let w := (run {} kfBoxRef).1
+    liveCount w = 2 ∧ (allIds w.objs).length = 1 ∧ w.retiredLog = [] := by decide
+
+/-- the full statement of "a refused call has no effect", for every operation -/
+def C05_refused_no_effect_statement : Prop :=
+  ∀ (w : World) (op : Op), (step w op).2.out ≠ .ok →
+    ∀ e, (lookup (step w op).1.objs e).map Cont.toks = (lookup w.objs e).map Cont.toks
+
+/-- …fails for assignment across the families from a non-empty source: `List_Assign` / `Table_Assign` / `Tree_Assign`
+    clear the destination before the source's `get` raises (ownership stays consistent — the cleared elements were
+    finalised — but a failed call changed its receiver: C12's subject; outside this contract) -/
+theorem C05_refused_no_effect_refuted : ¬ C05_refused_no_effect_statement := by
+  intro h
+  have := h (run {} [.newSeq 0 .list [1], .newMap 1 .table [(0, 10)]]).1 (.assign 0 1) (by decide) 0
+  revert this; decide
+
 /-! ## Non-vacuity: concrete in-contract histories that exercise every kind of container -/
 
 def demo : List Op :=
   [.new 0 .arr, .push 0 5, .push 0 3, .pushAt 0 1 7, .sort 0, .set 0 0 4, .copy 1 0, .pop 0, .popAt 0 (-1), .rem 0 9,
    .new 2 .lst, .assign 2 1, .pushAt 2 (-1) 2, .resize 2 2, .newMap 3 .table [(1, 10), (17, 20), (1, 11)],
    .mset 3 33 30, .mrem 3 17, .new 4 .tre, .assign 4 3, .mset 4 1 12, .copy 5 4, .del 4, .resize 3 0,
-   .new 6 .boxArr, .push 6 41, .push 6 42, .pop 6, .box 7 50, .concat 0 2, .assign 0 0]
+   .new 6 .boxArr, .push 6 41, .push 6 42, .pop 6, .box 7 50, .concat 0 2, .assign 0 0,
+   .new 8 .boxLst, .push 8 43, .pushAt 8 0 44, .pushAt 6 5 45, .pushAt 6 0 46, .new 9 .tre, .assign 1 9, .mset 9 3 4,
+   .mrem 9 3]
 
 example : allInContract {} demo := by
   simp only [demo, allInContract]
   decide
 
-/-- the demo history ends with 11 live elements in 7 containers, 20 finalised, and no operation was refused as ill-formed -/
-example : liveCount (run {} demo).1 = 11 ∧ (run {} demo).1.objs.length = 7 ∧ (run {} demo).1.retiredLog.length = 20 ∧
+/-- the demo history (39 operations over all kinds: probe and Box elements, a refused `push_at` of a Box, self-assignment,
+    assignment across the families from an empty source) ends with 14 live elements in 9 containers, 23 finalised, and
+    no operation was refused as ill-formed -/
+example : liveCount (run {} demo).1 = 14 ∧ (run {} demo).1.objs.length = 9 ∧ (run {} demo).1.retiredLog.length = 23 ∧
     (run {} demo).2.all (fun o => !o.bad) = true := by
   decide
 
-/-- the hypotheses of `C05_deep_partial` are met in the demo world: container 1 is an Array of probes, name 9 is free -/
-example : lookup (run {} demo).1.objs 9 = none ∧ (lookup (run {} demo).1.objs 1).isSome = true := by decide
+/-- the hypotheses of `C05_deep_partial` are met in the demo world: container 2 is a List of probes, name 12 is free -/
+example : lookup (run {} demo).1.objs 12 = none ∧ (lookup (run {} demo).1.objs 2).isSome = true := by decide
+
+/-! ### the structural models on concrete histories (hypotheses of `C05_moves_*` are met by every reachable state:
+    `C05_moves_histories`; here what the runs look like) -/
+
+open Conc in
+/-- a Table history with three keys of one hash value (1, 17, 33, 49 ≡ 1 mod 16): clustering and displacement, growth
+    5 → 11 slots, replacement of an existing key, `rem` with backward shift and shrink 11 → 5, explicit resize to 53 -/
+def demoTable : List MOp :=
+  [.set 1 10, .set 17 20, .set 33 30, .set 2 5, .set 49 7, .rem 1, .set 17 21, .set 3 1, .resize 30, .rem 33]
+
+open Conc in
+/-- nslots, nitems and the identities finalised, step by step -/
+example : (match tableRunC tableCfgNow probeHash 1 (Cello.Table.new tableCfgNow) demoTable with
+    | .ok rs => some (rs.map (fun r => (r.val.n, r.val.nitems, r.retired.map (·.id))))
+    | .error _ => none) =
+  some [(5, 1, []), (5, 2, []), (5, 3, []), (5, 4, []), (11, 5, []), (5, 4, [1, 2]), (5, 4, [3, 4]), (11, 5, []),
+        (53, 5, []), (5, 4, [5, 6])] := by decide
+
+open Conc in
+/-- a Tree history: seven insertions with rotations, `set` of an existing key (in place), `rem` of the root's key (two
+    children: predecessor copy), `rem` of a leaf, a refused resize, `rem` again -/
+def demoTree : List MOp :=
+  [.set 5 1, .set 3 2, .set 8 3, .set 1 4, .set 4 5, .set 7 6, .set 9 7, .set 5 9, .rem 5, .rem 3, .resize 3, .rem 8]
+
+open Conc in
+/-- number of nodes, identities finalised and identities assigned in place, step by step -/
+example : (treeRunC 1 treeEmpty demoTree).map (fun rs => rs.map (fun r =>
+      ((treeKVs r.val).length, r.retired.map (·.id), r.updated.map (·.id)))) =
+  some [(1, [], []), (2, [], []), (3, [], []), (4, [], []), (5, [], []), (6, [], []), (7, [], []), (7, [], [1, 2]),
+        (6, [1, 2], []), (5, [3, 4], []), (5, [], []), (4, [5, 6], [])] := by decide
 
 end Cello.Own
